@@ -535,7 +535,7 @@ theorem numbers_consecutive (c : Cfg) (l : List In) :
     split
     · simpa using hi.nums
     · have := (hi.segNum sg hseg).1
-      simpa using range_succ_map _ ⟨sg.number, sg.startDTS, sg.startNTP, 0, sg.flushed, sg.trigger⟩ hi.nums (by simpa using this)
+      simpa using range_succ_map _ ⟨sg.number, sg.startDTS, sg.startNTP, 0, sg.flushed, sg.trigger, 0⟩ hi.nums (by simpa using this)
 
 /-- hence consecutive files of one instance are recognised as continuous by the playback server
 (segmentFMP4CanBeConcatenated: same stream id, number + 1) -/
